@@ -14,3 +14,6 @@ import SpdxVerif.Props.C11Oracle
 #print axioms Spdx.C11.plus_never_crosses_family
 #print axioms Spdx.C11.range_ids_are_id_bytes
 #print axioms Spdx.C11.foldEq_plus_noplus
+#print axioms Spdx.C11.cases_agree
+#print axioms Spdx.C11.noplus_match_oracle
+#print axioms Spdx.C11.bothplus_match_oracle
